@@ -175,7 +175,8 @@ def run(F, rep, tier, allfacts):
     okpk = bool(pk) and describe(lf, lf["bbs"][pk[0]]["t"][2][0]) == "arg:leaves_count"
     rep.check(okid and okpk, "ID-load", "load:leaves_count-identity", "%s:%s" % (lf["file"], lf["line"]),
               "load must store its leaves_count argument and compute peaks from it (field=%s peaks=%s)" % (okid, okpk))
-    rep.check(bool(agg_blocks(lf, r"MerkleTreeError$", "LoadError")) or any(
+    lfam = [lf] + [cf_ for cn_, cf_ in F.find("^" + re.escape(ln) + r"::\{closure#\d+\}$", ["fuel_merkle"], required=False)]     # loop body may be a map closure
+    rep.check(any(bool(agg_blocks(g_, r"MerkleTreeError$", "LoadError")) for g_ in lfam) or any(
         callee_matches(c, r"ok_or") for _, c, *_ in calls(lf)), "ID-load", "load:missing-node-is-error", None,
         "load must fail with LoadError on a missing peak node")
 
